@@ -92,9 +92,43 @@ def output_list(fi, post, env) -> str:
     return names[0]
 
 
-def check_provenance(rc: RuleCtx, rule: str, fi, loop, out, out_list: str, knees: Rat, position: Rat, what="knees[i]") -> bool:
+def emit_map(ev, fr, fi, post, env, out_list: str):
+    """How the returned array is made from the output list: the function applied to each recorded element.  The identity for
+    `return L` / `np.array(L)`; for a loop that records *positions* and returns `np.array([knees[i] for i in L])` the map is
+    i -> knees[i].  Found by evaluating the return expression on a one-element list holding a placeholder."""
+    rets = [st for st in post if isinstance(st, ast.Return)]
+    if len(rets) != 1 or rets[0].value is None:
+        raise AnalysisError(f"{fi.qualname}: expected one return after the loop")
+    rv = rets[0].value
+    if isinstance(rv, ast.Name) or (isinstance(rv, ast.Call) and len(rv.args) == 1 and isinstance(rv.args[0], ast.Name) and rv.args[0].id == out_list):
+        return lambda v: v
+    if not any(isinstance(n, (ast.ListComp, ast.GeneratorExp, ast.Subscript)) for n in ast.walk(rv)):
+        return lambda v: v
+    ph = ev.symbol("@elt")
+    env2 = dict(env)
+    env2[out_list] = Vec([ph], "list")
+    try:
+        fr.block([st for st in post if st is not rets[0]], env2, TRUE)
+        img = fr.expr(rv, env2)
+    except Unsupported as e:
+        raise AnalysisError(f"{fi.qualname}: the return expression is not read as an element-wise image of the output list: {e}")
+    if isinstance(img, Vec) and img.kind in ("list", "arr") and len(img.items) == 1 and isinstance(img.items[0], Rat):
+        f = img.items[0]
+        if f.equals(ph):
+            return lambda v: v
+
+        def apply(v, f=f):
+            if isinstance(v, Rat):
+                return f.subst({"@elt": v})
+            raise AnalysisError(f"{fi.qualname}: a recorded element that is not a scalar is mapped by the return expression - shape not recognised")
+        return apply
+    raise AnalysisError(f"{fi.qualname}: the return expression is not read as an element-wise image of the output list ({ast.unparse(rv)[:70]})")
+
+
+def check_provenance(rc: RuleCtx, rule: str, fi, loop, out, out_list: str, knees: Rat, position: Rat, what="knees[i]", emap=None) -> bool:
     """Every append to the output list emits the input element at the current position; at most one per iteration."""
     res = rc.res
+    emap = emap or (lambda v: v)
     apps = [e for e in out.events if e.kind == "append" and e.target == out_list]
     other = [e for e in out.events if e.target == out_list and e.kind not in ("append",)]
     ok = True
@@ -111,6 +145,7 @@ def check_provenance(rc: RuleCtx, rule: str, fi, loop, out, out_list: str, knees
         for g, v in cases_of(e.args[0]):
             if not g_sat(g_and(g, e.guard)):
                 continue
+            v = emap(v)
             if not (isinstance(v, Rat) and v.equals(want)):
                 ok = False
                 res.violation(rule, fi.module, fi.name, e.node, f"the emitted value is not the input element {what} of the current position",
@@ -196,7 +231,8 @@ def _worst(rc: RuleCtx):
     L = output_list(fi, post, env)
     knees, pts = env["knees"], env["points"]
     py = pts.items[1]
-    seed = env[L]
+    emap = emit_map(ev, fr, fi, post, env, L)
+    seed = Vec([emap(x) for x in env[L].items], "list")
     k0 = _at(knees, C(0))
     # short inputs are returned unchanged
     first_if = fi.node.body[-1] if isinstance(fi.node.body[-1], ast.If) else None
@@ -208,7 +244,7 @@ def _worst(rc: RuleCtx):
         return
     out, benv, carried = body_transfer(rc, ev, fi, loop, env, L)
     i = benv["__pos__"]
-    check_provenance(rc, "W3", fi, loop, out, L, knees, i)
+    check_provenance(rc, "W3", fi, loop, out, L, knees, i, emap=emap)
     apps = [e for e in out.events if e.kind == "append" and e.target == L]
     keep = g_or(*[e.guard for e in apps]) if apps else FALSE
     h = _at(py, _at(knees, i))
@@ -259,7 +295,7 @@ def corner_guard(rc: RuleCtx, name: str):
         return None
     out, benv, carried = body_transfer(rc, ev, fi, loop, env, L)
     i = benv["__pos__"]
-    check_provenance(rc, "W3", fi, loop, out, L, env["knees"], i)
+    check_provenance(rc, "W3", fi, loop, out, L, env["knees"], i, emap=emit_map(ev, fr, fi, post, env, L))
     apps = [e for e in out.events if e.kind == "append" and e.target == L]
     keep = g_or(*[e.guard for e in apps]) if apps else FALSE
     return fi, loop, keep, env, i
